@@ -34,7 +34,14 @@ EXPLANATION = (
     "The serialiser-side facts are obtained by evaluation, not by matching source shapes: the generic to_dict is evaluated per attribute "
     "name (which names become keys), explicit to_dict methods and the control __str__ methods are executed path by path to the dictionaries / "
     "string templates they return (format, %, f-string and concatenation are one thing), Comparison.text, the mixing_model setter and the "
-    "node/link dispatch of _read_control_line are evaluated on each concrete input.")
+    "node/link dispatch of _read_control_line are evaluated on each concrete input. (R-C13-6) an attribute that can hold an object to_dict embeds as "
+    "its dictionary (documented type / INP-reader assignment names a class with to_dict) is re-bound by from_dict to the model's object of that name: "
+    "the statements of the from_dict branch that decide the attribute are evaluated on an element dictionary carrying the embedded image; (R-C13-7) the "
+    "same evaluation with the value 0.0 for every numeric key restored by assignment: 0.0 must land (a truthiness guard drops it); (R-C13-3g) every "
+    "action text ControlAction.__str__ writes per element kind (leak_status True/False, status OPEN/CLOSED) is read back by the THEN and ELSE loops of "
+    "_EpanetRule.generate_control as the same action (target registry, attribute, value and its type) -- writer and reader both evaluated; (R-C13-3f) "
+    "AndCondition/OrCondition.__str__ evaluated on Or(And(A,B),C) and And(A,Or(B,C)) must give different texts unless the dictionary encodes the tree "
+    "otherwise; (R-C13-8) every store of Pattern._multipliers has float elements like the constructor's, or to_dict converts the elements.")
 RULE_TEXT = ("one instance = one (class, key) pair, one control-text token, one options parameter or one enum member; distinct = distinct "
              "constructs")
 ASSUMPTIONS = [
@@ -1034,7 +1041,296 @@ def rule_keys(repo, chk):
                 chk.expect(ok, "R-C13-1", construct, loc(fd, loop),
                            "key %r is read but stored into %s" % (k, sorted(lands)), expected="attribute %s" % k, found=sorted(lands))
     chk.floor("R-C13-1", 90)
-    return ct, fd
+    return ct, fd, emits
+
+
+# --------------------------------------------------------------------------- from_dict evaluated on one element dictionary
+def _names_loaded(node):
+    return {x.id for x in ast.walk(node) if isinstance(x, ast.Name) and isinstance(x.ctx, ast.Load)}
+
+
+def landing_slice(body, attrs):
+    """the part of a statement list that decides what is stored into `<obj>.<attr>` (attr in attrs): those assignments, the
+    assignments of the locals they (transitively) read, and the enclosing if / try / loop statements with only these members."""
+    needed, keep = set(), set()
+
+    def scan(stmts, guards):
+        changed = False
+        for st in stmts:
+            if isinstance(st, (ast.Assign, ast.AugAssign, ast.AnnAssign)):
+                tg = st.targets if isinstance(st, ast.Assign) else [st.target]
+                hit = False
+                for t in tg:
+                    for e in ([t] + list(t.elts) if isinstance(t, (ast.Tuple, ast.List)) else [t]):
+                        if isinstance(e, ast.Attribute) and e.attr in attrs:
+                            hit = True
+                        if isinstance(e, ast.Name) and e.id in needed:
+                            hit = True
+                if hit and id(st) not in keep:
+                    keep.add(id(st))
+                    changed = True
+                if id(st) in keep:
+                    before = len(needed)
+                    needed.update(_names_loaded(st))
+                    for g in guards:
+                        keep.add(id(g))
+                        for fld in ("test", "iter"):
+                            if getattr(g, fld, None) is not None:
+                                needed.update(_names_loaded(getattr(g, fld)))
+                    changed = changed or len(needed) != before
+            for fld in ("body", "orelse", "finalbody"):
+                blk = getattr(st, fld, None)
+                if isinstance(blk, list) and blk and isinstance(blk[0], ast.stmt) and not isinstance(st, (ast.FunctionDef, ast.ClassDef)):
+                    changed = scan(blk, guards + [st]) or changed
+            for h in getattr(st, "handlers", []) or []:
+                changed = scan(h.body, guards + [st]) or changed
+        return changed
+    for _ in range(20):
+        if not scan(body, []):
+            break
+
+    def rebuild(stmts):
+        out = []
+        for st in stmts:
+            if id(st) not in keep:
+                continue
+            if isinstance(st, ast.If):
+                out.append(ast.If(test=st.test, body=rebuild(st.body) or [ast.Pass()], orelse=rebuild(st.orelse)))
+            elif isinstance(st, ast.Try):
+                out.append(ast.Try(body=rebuild(st.body) or [ast.Pass()], handlers=[ast.ExceptHandler(type=h.type, name=h.name, body=rebuild(h.body) or [ast.Pass()]) for h in st.handlers],
+                                   orelse=rebuild(st.orelse), finalbody=rebuild(st.finalbody)))
+            elif isinstance(st, ast.For):
+                out.append(ast.For(target=st.target, iter=st.iter, body=rebuild(st.body) or [ast.Pass()], orelse=[]))
+            elif isinstance(st, (ast.While, ast.With)):
+                raise ExtractError("from_dict: a store of %s sits in a %s statement (outside the evaluable fragment)" % (sorted(attrs), type(st).__name__))
+            else:
+                out.append(st)
+        return out
+    sl = rebuild(body)
+    for st in sl:
+        ast.fix_missing_locations(ast.copy_location(st, body[0])) if not hasattr(st, "lineno") else None
+    return sl
+
+
+def element_landing(repo, loop, var, element, attrs):
+    """EVALUATE the part of a from_dict element loop body that decides what lands in <element object>.<attr> on ONE concrete element
+    dictionary: -> ('stored', value) | ('absent', None) | ('raises', text).  The model is abstract: wn.get_*(x) is 'the registry
+    object named x', wn.add_*() does nothing.  Whatever spelling the branch uses (guards, temporaries, conditional expressions,
+    helpers inlined by the normaliser) the answer is what the code would store."""
+    from ..peval import Obj, Unknown, Raised
+    Ev, hook0 = concrete_evaluator(repo)
+    pytypes = {"dict": dict, "str": str, "list": list, "tuple": tuple, "float": float, "int": int, "bool": bool, "six.string_types": str}
+    made = []
+
+    def hook(name, n, ev):
+        f = n.func
+        if isinstance(f, ast.Attribute):
+            if f.attr in ("setdefault", "pop") and 1 <= len(n.args) <= 2 and not n.keywords:
+                base = ev.ev(f.value)
+                if isinstance(base, dict):
+                    k = ev.ev(n.args[0])
+                    dflt = ev.ev(n.args[1]) if len(n.args) == 2 else None
+                    if f.attr == "setdefault":
+                        return base.setdefault(k, dflt)
+                    if k in base or len(n.args) == 2:
+                        return base.pop(k, dflt)
+                    raise _PyExc("KeyError")
+            if f.attr == "keys" and not n.args:
+                base = ev.ev(f.value)
+                if isinstance(base, dict):
+                    return list(base.keys())
+            b = None
+            if isinstance(f.value, ast.Name) and isinstance(ev.env.get(f.value.id), Obj):
+                b = ev.env[f.value.id]
+            if b is not None and b.name == "wn":
+                args = [ev.ev(a) for a in n.args]
+                if f.attr.startswith("get_"):
+                    o = Obj("wn.%s" % f.attr, {}, cls="registry object")
+                    o.arg = args[0] if args else None
+                    made.append(o)
+                    return o
+                if f.attr.startswith("add_"):
+                    return None
+        if name == "isinstance" and len(n.args) == 2:
+            v = ev.ev(n.args[0])
+            tn = _type_names(n.args[1])
+            if all(t in pytypes for t in tn):
+                return (not isinstance(v, Obj)) and isinstance(v, tuple(pytypes[t] for t in tn)) and not (isinstance(v, bool) and tn <= {"int", "float"} and False)
+            if isinstance(v, (dict, str, list, tuple, float, int)) or v is None:
+                return False        # a JSON value is not an instance of a model class
+            raise Unknown("isinstance(%r, %s)" % (v, sorted(tn)))
+        return hook0(name, n, ev)
+
+    def attr_hook(obj, attr):
+        if isinstance(obj, Obj) and obj.name == "wn":
+            return Obj("wn.%s" % attr, {}, cls="registry")
+        return NotImplemented
+
+    class E(Ev):
+        def subscript_of(self, b, n):
+            if isinstance(b, Obj) and b.cls == "registry":
+                o = Obj("%s[..]" % b.name, {}, cls="registry object")
+                o.arg = self.ev(n.slice)
+                made.append(o)
+                return o
+            return Ev.subscript_of(self, b, n)
+
+    def consts(dn):
+        raise Unknown("unbound name %s" % dn)
+    sl = landing_slice(loop.body, set(attrs))
+    if not sl:
+        return "absent", None
+    ev = E({var: element, "wn": Obj("wn", {})}, consts, hook, attr_hook)
+    try:
+        ev.block(sl)
+    except Raised as r:
+        return "raises", norm(r.node)
+    except _PyExc as e:
+        return "raises", e.kind
+    except (_Continue, _Break):
+        pass
+    except Unknown as e:
+        raise ExtractError("from_dict: the statements deciding %s are not evaluable on %r: %s" % (sorted(attrs), element, e))
+    for o in made:
+        for a in attrs:
+            if a in o.attrs:
+                return "stored", o.attrs[a]
+    return "absent", None
+
+
+def doc_type_words(getter):
+    """identifiers in the type part (before the first ':' of the first line) of a numpy-style property docstring."""
+    doc = ast.get_docstring(getter) or "" if getter is not None else ""
+    first = doc.strip().split("\n")[0] if doc.strip() else ""
+    if ":" not in first:
+        return set()
+    head = first.split(":")[0] if not first.startswith(":class:") else first.split("`")[1] if "`" in first else ""
+    return set(re.findall(r"[A-Za-z_][A-Za-z0-9_]*", head))
+
+
+def numeric_domain(ct, cn, k, info):
+    """is the attribute behind key k numeric (legal values include 0 / 0.0)?  Evidence: the documented type of the property, a float()/int()
+    conversion in its setter, or a numeric initial value of the field in a constructor of the class."""
+    if info.get("getter") is not None:
+        w = doc_type_words(info["getter"])
+        if w & {"float", "int", "number"} and not w & {"bool", "str", "dict", "list", "tuple"}:
+            return "documented as %s" % "/".join(sorted(w & {"float", "int", "number"}))
+    st = info.get("setter")
+    if st is not None:
+        for c in calls(st):
+            if isinstance(c.func, ast.Name) and c.func.id in ("float", "int"):
+                return "setter converts with %s()" % c.func.id
+    for fn in ct.methods(cn).get("__init__", []):
+        for n in walk(fn):
+            if isinstance(n, ast.Assign) and isinstance(n.targets[0], ast.Attribute) and isinstance(n.targets[0].value, ast.Name) and n.targets[0].value.id == "self" \
+                    and n.targets[0].attr in (k, "_" + k) and isinstance(const(n.value), (int, float)) and not isinstance(const(n.value), bool):
+                return "initialised to %r" % const(n.value)
+    return None
+
+
+def embeddable_classes(ct):
+    """classes with an own to_dict that are not elements: objects the generic Node/Link.to_dict embeds as a dictionary."""
+    return {cn for cn, c in ct.classes.items() if any(isinstance(n, ast.FunctionDef) and n.name == "to_dict" for n in c.body)} - {"Node", "Link", "Registry"}
+
+
+def inp_reader_object_attrs(repo, emb):
+    """attribute -> classes, from the INP reader's assignments `<elem>.<attr> = <wn.get_<class>(..)>` (directly or through a local)."""
+    getters = {"get_" + cn.lower(): cn for cn in emb}
+    out = {}
+    try:
+        t = repo.tree(EIO)
+    except AnchorError:
+        return out
+    for fn in ast.walk(t):
+        if not isinstance(fn, ast.FunctionDef):
+            continue
+        local, stores = {}, []
+        for n in ast.walk(fn):
+            if isinstance(n, ast.Assign) and len(n.targets) == 1:
+                if isinstance(n.targets[0], ast.Name) and isinstance(n.value, ast.Call) and last_attr(n.value) in getters:
+                    local[n.targets[0].id] = getters[last_attr(n.value)]
+                if isinstance(n.targets[0], ast.Attribute):
+                    stores.append(n)
+        for n in stores:
+            v = n.value
+            if isinstance(v, ast.Call) and last_attr(v) in getters:
+                out.setdefault(n.targets[0].attr, set()).add(getters[last_attr(v)])
+            elif isinstance(v, ast.Name) and v.id in local:
+                out.setdefault(n.targets[0].attr, set()).add(local[v.id])
+    return out
+
+
+def object_domain(emb, inp_attrs, k, info):
+    """embeddable classes the attribute behind key k can hold.  Evidence: the documented type of the property, or an INP-reader
+    assignment `<elem>.<k> = <registry lookup>`."""
+    out = set(inp_attrs.get(k, ()))
+    if info.get("getter") is not None:
+        out |= doc_type_words(info["getter"]) & emb
+    return out
+
+
+def rule_values(repo, chk, ct, fd, emits):
+    """R-C13-6 / R-C13-7: from_dict evaluated on one element dictionary per (class, key): an embedded object is re-bound to the model's
+    object of that name; the legal value 0.0 of a numeric key is restored."""
+    emb = embeddable_classes(ct)
+    inp_attrs = inp_reader_object_attrs(repo, emb)
+    for kind, listkey, typekey, table in (("node", "nodes", "node_type", NODE_BRANCHES), ("link", "links", "link_type", LINK_BRANCHES)):
+        var, bodies, loop = find_branches(fd, listkey, typekey)
+        for tname, classes in table.items():
+            if tname not in bodies:
+                continue
+            br = Branch(bodies[tname], var)
+            for cn in classes:
+                pub = ct.public(cn)
+                base = {"name": "E1", typekey: tname}
+                if "pump_type" in pub:
+                    g = pub["pump_type"].get("getter")
+                    vals = [const(r.value) for r in walk(g) if isinstance(r, ast.Return)] if g is not None else []
+                    if vals and isinstance(vals[0], str):
+                        base["pump_type"] = vals[0]
+                if "valve_type" in pub:
+                    g = pub["valve_type"].get("getter")
+                    vals = [const(r.value) for r in walk(g) if isinstance(r, ast.Return)] if g is not None else []
+                    if vals and isinstance(vals[0], str):
+                        base["valve_type"] = vals[0]
+                for k, info in sorted(pub.items()):
+                    if k in DISCRIMINATORS or not emits[kind](k) or ((k + "_name") in pub and not emits[kind](k, "ref")):
+                        continue
+                    lands = {a for a in br.attr_land.get(k, ()) if a in (k, "_" + k)}
+                    if not lands:
+                        continue        # not restored by a direct assignment (add_* keyword ...): R-C13-1 covers where it lands
+                    settable = info["kind"] in ("inst", "classattr") or (info.get("setter") is not None and not only_raises(info["setter"]))
+                    # --- R-C13-6: embedded objects
+                    objs = object_domain(emb, inp_attrs, k, info) if settable else set()
+                    for oc in sorted(objs):
+                        tds = returned_dicts(repo.func(ELEM, oc + ".to_dict"))
+                        if not tds or "name" not in tds[0]:
+                            raise ExtractError("%s.to_dict: the embedded image (a dictionary with a 'name') could not be derived" % oc)
+                        from ..peval import Obj
+                        image = {kk: ("OBJ1" if kk == "name" else Obj("image of %s.%s" % (oc, kk), {})) for kk in tds[0]}
+                        el = dict(base)
+                        el[k] = image
+                        res, val = element_landing(repo, loop, var, el, lands)
+                        ok = res == "stored" and isinstance(val, Obj) and val.cls == "registry object" and getattr(val, "arg", None) == "OBJ1"
+                        shown = "the embedded dictionary itself" if val is image else (val.name if isinstance(val, Obj) else repr(val))
+                        chk.expect(ok, "R-C13-6", "%s key %r (a %s, embedded by to_dict as its dictionary) is re-bound by from_dict to the model's %s of that name" % (
+                            cn, k, oc, oc), loc(fd, loop),
+                            "to_dict emits %s.%s as the dictionary %s.to_dict() returns; from_dict stores %s in %s.%s: the re-created element does not refer to the "
+                            "model's %s (to_dict of the copy differs, the INP writer reads .name of a dict)" % (cn, k, oc, shown, cn, k, oc),
+                            expected="wn.get_%s(<name>)" % oc.lower(), found="%s: %s" % (res, shown))
+                    # --- R-C13-7: zero is a value
+                    why = numeric_domain(ct, cn, k, info) if settable or lands else None
+                    if why and not objs:
+                        el = dict(base)
+                        el[k] = 0.0
+                        res, val = element_landing(repo, loop, var, el, lands)
+                        ok = res == "stored" and isinstance(val, (int, float)) and not isinstance(val, bool) and val == 0.0
+                        chk.expect(ok, "R-C13-7", "%s key %r (numeric: %s): the value 0.0 is restored by from_dict" % (cn, k, why), loc(fd, loop),
+                                   "to_dict emits %r = 0.0; evaluating the %s branch of from_dict on such a dictionary gives %s: the value is dropped (a truthiness "
+                                   "test on a number treats 0.0 like a missing key)" % (k, tname, "%s %r" % (res, val)),
+                                   expected="%s.%s = 0.0" % (cn, k), found="%s %r" % (res, val))
+    chk.floor("R-C13-6", 2)
+    chk.floor("R-C13-7", 12)
 
 
 def demand_entry_reads(body):
@@ -1195,11 +1491,56 @@ def concrete_evaluator(repo):
             return {k.arg: ev.ev(k.value) for k in n.keywords}
         if name in ("list", "tuple") and not n.args and not n.keywords:
             return []
+        if name in ("float", "int") and len(n.args) == 1 and not n.keywords:
+            v = ev.ev(n.args[0])
+            if isinstance(v, (str, int, float)):
+                try:
+                    return float(v) if name == "float" else int(v)
+                except ValueError:
+                    raise _PyExc("ValueError")
+        if isinstance(n.func, ast.Attribute) and n.func.attr == "join" and len(n.args) == 1 and not n.keywords:
+            base = ev.ev(n.func.value)
+            if isinstance(base, str):
+                items = ev.ev(n.args[0])
+                if isinstance(items, (list, tuple)) and all(isinstance(x, str) for x in items):
+                    return base.join(items)
+        if isinstance(n.func, ast.Attribute) and n.func.attr == "append" and len(n.args) == 1:
+            base = ev.ev(n.func.value)
+            if isinstance(base, list):
+                base.append(ev.ev(n.args[0]))
+                return None
         return base_hook(name, n, ev)
 
     class Ev(Base):
         def e_Dict(self, n):
             return {self.ev(k): self.ev(v) for k, v in zip(n.keys, n.values)}
+
+        def binop(self, op, a, b, n):
+            if isinstance(op, ast.Mod) and isinstance(a, str):
+                from ..peval import Unknown, Obj
+                args = tuple(b) if isinstance(b, (list, tuple)) else (b,)
+                if any(isinstance(x, (Obj, dict, list)) for x in args):
+                    raise Unknown("%%-format over %r" % (args,))
+                try:
+                    return a % args
+                except (TypeError, ValueError) as e:
+                    raise Unknown("%%-format: %s" % e)
+            return Base.binop(self, op, a, b, n)
+
+        def e_JoinedStr(self, n):
+            from ..peval import Unknown, Obj
+            out = []
+            for part in n.values:
+                if isinstance(part, ast.Constant):
+                    out.append(str(part.value))
+                    continue
+                v = self.ev(part.value)
+                if isinstance(v, Obj) or isinstance(v, (dict, list)):
+                    raise Unknown("f-string over %r" % (v,))
+                spec = self.ev(part.format_spec) if part.format_spec is not None else ""
+                v = {115: str, 114: repr, 97: ascii}.get(part.conversion, lambda x: x)(v)
+                out.append(format(v, spec))
+            return "".join(out)
 
         def e_Subscript(self, n):
             b = self.ev(n.value)
@@ -1577,6 +1918,165 @@ def node_dispatch_tokens(repo, rcl, kinds):
     return node_tokens
 
 
+def rule_action_round_trip(repo, chk):
+    """R-C13-3g: every action text ControlAction.__str__ can write (one per element kind; the value words of leak_status and status) is
+    read back by the rule reader (_EpanetRule.generate_control, THEN and ELSE clauses) as the same action: target resolved in the
+    matching registry, same attribute, same value.  Both sides are EVALUATED on concrete actions (writer: __str__ and the methods it
+    calls; reader: the body of the clause loop); nothing is matched by shape."""
+    from ..peval import Obj, Unknown, Raised
+    ct = ClassTable(repo)
+    wfn = repo.func(CTRL, "ControlAction.__str__")
+    gen = repo.func(EIO, "_EpanetRule.generate_control")
+    chk.fn(wfn, gen)
+    Ev, hook0 = concrete_evaluator(repo)
+    make_enum, members = enum_evaluator(repo, CTRL, {"LinkStatus": (BASE, "LinkStatus")})
+    ctrl_classes = repo.classes(CTRL)
+
+    def method(cname, mname):
+        seen, todo = set(), [cname]
+        while todo:
+            c = todo.pop(0)
+            if c in seen or c not in ctrl_classes:
+                continue
+            seen.add(c)
+            for n in ctrl_classes[c].body:
+                if isinstance(n, ast.FunctionDef) and n.name == mname:
+                    return n
+            todo += [b.id for b in ctrl_classes[c].bases if isinstance(b, ast.Name)]
+        return None
+
+    def kinds():
+        out = []
+        for cn in ("Junction", "Tank", "Reservoir", "Pipe", "Pump", "Valve"):
+            if cn not in ct.classes:
+                raise AnchorError("class %s vanished" % cn)
+            pub = ct.public(cn)
+            for key in ("node_type", "link_type"):
+                g = pub.get(key, {}).get("getter")
+                vals = [const(r.value) for r in walk(g) if isinstance(r, ast.Return)] if g is not None else []
+                if vals and isinstance(vals[0], str):
+                    out.append((cn, key, vals[0]))
+        if len(out) < 6:
+            raise ExtractError("node_type / link_type constants of the element classes not found: %s" % out)
+        return out
+
+    # ---------------- writer
+    def write(tkey, tval, attribute, value):
+        target = Obj("target", {"name": "e1", tkey: tval})
+        me = Obj("self", {"_target_obj": target, "_attribute": attribute, "_value": value})
+
+        def hook(name, n, ev):
+            if name == "isinstance" and len(n.args) == 2 and ev.ev(n.args[0]) is target:
+                tn = {t.split(".")[-1] for t in _type_names(n.args[1])}
+                if tn <= {"Link", "Node"}:
+                    return ("Link" in tn and tkey == "link_type") or ("Node" in tn and tkey == "node_type")
+            if isinstance(n.func, ast.Attribute) and isinstance(n.func.value, ast.Name) and n.func.value.id == "self":
+                m = method("ControlAction", n.func.attr)
+                if m is not None:
+                    ps = params(m)
+                    sub = Ev(dict(zip(ps, [ev.ev(a) for a in n.args]), self=me), class_attr, hook)
+                    return sub.run(m.body)
+            return enum_hook(name, n, ev)
+        e0 = make_enum({})
+        class_attr, enum_hook = e0.class_attr, e0.call_hook
+        try:
+            return type(e0)({"self": me}, class_attr, hook).run(wfn.body)
+        except (Unknown, Raised, _PyExc) as e:
+            raise ExtractError("ControlAction.__str__ not evaluable for (%s, %r, %r): %s" % (tval, attribute, value, e))
+
+    # ---------------- reader
+    loops = {}
+    for n in walk(gen):
+        if isinstance(n, ast.For) and isinstance(n.target, ast.Name):
+            it = unparse(n.iter)
+            for clause, fld in (("THEN", "_then_clauses"), ("ELSE", "_else_clauses")):
+                if fld in it:
+                    loops[clause] = n
+    if set(loops) != {"THEN", "ELSE"}:
+        raise ExtractError("_EpanetRule.generate_control: loops over the THEN / ELSE clauses not found (%s)" % sorted(loops))
+    empties = {n.targets[0].id for n in walk(gen) if isinstance(n, ast.Assign) and len(n.targets) == 1 and isinstance(n.targets[0], ast.Name)
+               and (isinstance(n.value, ast.List) and not n.value.elts or (isinstance(n.value, ast.Call) and call_name(n.value) == "list" and not n.value.args))}
+    gps = params(gen)
+    if not gps:
+        raise ExtractError("_EpanetRule.generate_control: signature changed")
+
+    def read(clause, line):
+        got = []
+        model = Obj("model", {})
+        me = Obj("self", {})
+
+        def hook(name, n, ev):
+            f = n.func
+            if isinstance(f, ast.Attribute) and f.attr in ("get_node", "get_link") and ev.ev(f.value) is model:
+                o = Obj(f.attr, {})
+                o.arg = ev.ev(n.args[0]) if n.args else None
+                return o
+            if name.split(".")[-1] == "ControlAction" and len(n.args) == 3:
+                got.append(tuple(ev.ev(a) for a in n.args))
+                return Obj("action", {})
+            if name == "to_si" and len(n.args) >= 2:
+                return ev.ev(n.args[1])
+            if isinstance(f, ast.Attribute) and isinstance(f.value, ast.Name) and f.value.id in ctrl_classes:
+                m = method(f.value.id, f.attr)
+                if m is not None:
+                    ps = params_all(m)
+                    args = [ev.ev(a) for a in n.args]
+                    if any(isinstance(d, ast.Name) and d.id == "classmethod" for d in m.decorator_list):
+                        args = [Obj("cls", {})] + args
+                    return Ev(dict(zip(ps, args)), consts, hook, attr_hook).run(m.body)
+            return hook0(name, n, ev)
+
+        def attr_hook(obj, attr):
+            if obj is me:
+                return Obj("self.%s" % attr, {})
+            return NotImplemented
+
+        def consts(dn):
+            raise Unknown("unbound name %s" % dn)
+        env = {nm: [] for nm in empties}
+        env.update({gps[0]: model, "self": me, loops[clause].target.id: line})
+        try:
+            Ev(env, consts, hook, attr_hook).block(loops[clause].body)
+        except Raised as r:
+            return "raises %s" % norm(r.node), None
+        except _PyExc as e:
+            return "raises %s" % e.kind, None
+        except (_Continue, _Break):
+            pass
+        except Unknown as e:
+            raise ExtractError("_EpanetRule.generate_control (%s clause) not evaluable on %r: %s" % (clause, line, e))
+        if len(got) != 1:
+            return "builds %d actions" % len(got), None
+        return "ok", got[0]
+
+    n_inst = 0
+    for cn, tkey, tval in kinds():
+        if tkey == "node_type":
+            cases = [("leak_status", True), ("leak_status", False)]
+        else:
+            cases = [("status", 1), ("status", 0)]
+        for attribute, value in cases:
+            text = write(tkey, tval, attribute, value)
+            if not isinstance(text, str):
+                raise ExtractError("ControlAction.__str__ did not evaluate to a string for (%s, %s, %r): %r" % (tval, attribute, value, text))
+            for clause in ("THEN", "ELSE"):
+                res, act = read(clause, "%s %s" % (clause, text))
+                want = "get_node" if tkey == "node_type" else "get_link"
+                if act is None:
+                    ok, found = False, res
+                else:
+                    tgt, a2, v2 = act
+                    ok = isinstance(tgt, Obj) and tgt.name == want and getattr(tgt, "arg", None) == "e1" and a2 == attribute \
+                        and type(v2) in ((bool,) if isinstance(value, bool) else (int, float)) and v2 == value
+                    found = "ControlAction(model.%s(%r), %r, %r)" % (tgt.name if isinstance(tgt, Obj) else tgt, getattr(tgt, "arg", None), a2, v2)
+                n_inst += 1
+                chk.expect(ok, "R-C13-3g", "rule reader (%s clause) reads the action text %r of a %s back as the same action" % (clause, text.strip(), cn), loc(gen, loops[clause]),
+                           "ControlAction.__str__ writes %r for ControlAction(<%s e1>, %r, %r); Rule.to_dict emits it and from_dict re-reads it through "
+                           "_EpanetRule.generate_control, which gives: %s" % (text.strip(), cn, attribute, value, found),
+                           expected="ControlAction(model.%s('e1'), %r, %r)" % (want, attribute, value), found=found)
+    chk.floor("R-C13-3g", 24)
+
+
 def rule_control_text(repo, chk, fd):
     rcl = repo.func(EIO, "_read_control_line")
     chk.fn(rcl)
@@ -1758,6 +2258,169 @@ def rule_control_text(repo, chk, fd):
     chk.floor("R-C13-3e", 8)
 
 
+# --------------------------------------------------------------------------- element type of array-valued fields
+_FLOAT_TYPES = {"np.float64", "numpy.float64", "float", "np.float_", "np.double", "np.floating", "'float64'", "'float'", "'f8'", "'d'", "'<f8'", "np.dtype('float64')", "np.dtype(float)"}
+_ARRAY_MAKERS = {"array", "asarray", "asanyarray", "ascontiguousarray", "fromiter", "zeros", "ones", "empty", "full", "zeros_like", "ones_like", "full_like"}
+
+
+def element_type(expr, env, depth=0):
+    """abstract element type of an array / list expression: 'float64' (every element is a float: a dtype=float64 array, astype(float),
+    float() applied element-wise, float literals), or 'as given' (depends on what the caller passed).  Locals are followed (env: name -> exprs)."""
+    if depth > 6:
+        return "as given"
+    if isinstance(expr, ast.Name) and expr.id in env:
+        ts = {element_type(v, env, depth + 1) for v in env[expr.id]}
+        return ts.pop() if len(ts) == 1 else "as given"
+    if isinstance(expr, ast.IfExp):
+        ts = {element_type(expr.body, env, depth + 1), element_type(expr.orelse, env, depth + 1)}
+        return ts.pop() if len(ts) == 1 else "as given"
+    if isinstance(expr, ast.Call):
+        nm = last_attr(expr) or call_name(expr)
+        if nm == "astype" and expr.args:
+            return "float64" if unparse(expr.args[0]) in _FLOAT_TYPES else "as given"
+        if nm in _ARRAY_MAKERS:
+            for kw in expr.keywords:
+                if kw.arg == "dtype":
+                    return "float64" if unparse(kw.value) in _FLOAT_TYPES else "as given"
+            if nm in ("zeros", "ones", "empty"):
+                return "float64"            # numpy's default dtype
+            if nm in ("array", "asarray", "asanyarray") and len(expr.args) >= 2:
+                return "float64" if unparse(expr.args[1]) in _FLOAT_TYPES else "as given"
+            return element_type(expr.args[0], env, depth + 1) if expr.args else "as given"
+        if nm in ("list", "tuple") and len(expr.args) == 1:
+            return element_type(expr.args[0], env, depth + 1)
+        if nm == "tolist" and isinstance(expr.func, ast.Attribute):
+            return "python numbers"
+        if nm == "map" and len(expr.args) == 2 and unparse(expr.args[0]) == "float":
+            return "float64"
+    if isinstance(expr, (ast.ListComp, ast.GeneratorExp)):
+        e = expr.elt
+        if isinstance(e, ast.Call) and isinstance(e.func, ast.Name) and e.func.id == "float":
+            return "float64"
+        return "as given"
+    if isinstance(expr, (ast.List, ast.Tuple)):
+        ts = set()
+        for e in expr.elts:
+            if isinstance(const(e), float) or (isinstance(e, ast.Call) and isinstance(e.func, ast.Name) and e.func.id == "float"):
+                ts.add("float64")
+            else:
+                ts.add("as given")
+        return ts.pop() if len(ts) == 1 else "as given"
+    if isinstance(expr, ast.BinOp) and isinstance(expr.op, ast.Mult):
+        # [0.0] * n
+        for side in (expr.left, expr.right):
+            if isinstance(side, (ast.List, ast.Tuple)):
+                return element_type(side, env, depth + 1)
+    return "as given"
+
+
+def rule_sibling_element_types(repo, chk):
+    """R-C13-8: every place of class Pattern that stores _multipliers produces the same element type as the constructor (float64), or
+    to_dict converts the elements to Python numbers: otherwise to_dict emits numpy integers for a pattern set through that place and
+    write_json raises."""
+    cname, field, key = "Pattern", "_multipliers", "multipliers"
+    c = repo.cls(ELEM, cname)
+    td = repo.func(ELEM, cname + ".to_dict")
+    chk.fn(td)
+    # does to_dict convert?  (value of the key in the returned dictionary)
+    conv = False
+    tvals = []
+    for n in walk(td):
+        if isinstance(n, ast.keyword) and n.arg == key:
+            tvals.append(n.value)
+        if isinstance(n, ast.Dict):
+            tvals += [v for k_, v in zip(n.keys, n.values) if const(k_) == key]
+        if isinstance(n, ast.Assign) and isinstance(n.targets[0], ast.Subscript) and const(n.targets[0].slice) == key:
+            tvals.append(n.value)
+    if not tvals:
+        raise ExtractError("%s.to_dict: value of the key %r not found" % (cname, key))
+    tenv = {}
+    for n in walk(td):
+        if isinstance(n, ast.Assign) and len(n.targets) == 1 and isinstance(n.targets[0], ast.Name):
+            tenv.setdefault(n.targets[0].id, []).append(n.value)
+    conv = all(element_type(v, tenv) in ("float64", "python numbers") for v in tvals)
+    sites = []
+    for fn in c.body:
+        if not isinstance(fn, ast.FunctionDef):
+            continue
+        env = {}
+        for n in walk(fn):
+            if isinstance(n, ast.Assign) and len(n.targets) == 1 and isinstance(n.targets[0], ast.Name):
+                env.setdefault(n.targets[0].id, []).append(n.value)
+        role = "setter" if any(isinstance(d, ast.Attribute) and d.attr == "setter" for d in fn.decorator_list) else "method"
+        i = 0
+        for n in walk(fn):
+            if isinstance(n, ast.Assign) and any(isinstance(t, ast.Attribute) and t.attr == field and isinstance(t.value, ast.Name) and t.value.id == "self" for t in n.targets):
+                i += 1
+                sites.append((fn, "%s.%s%s" % (cname, fn.name, " (setter)" if role == "setter" else ""), i, n, element_type(n.value, env)))
+    ctor = [x for x in sites if x[0].name == "__init__"]
+    if not ctor:
+        raise ExtractError("%s.__init__ does not store %s" % (cname, field))
+    ref = ctor[-1][4]
+    chk.sample({"class": cname, "field": field, "stores": [(q, i, t) for _, q, i, _, t in sites], "to_dict_converts": conv})
+    for fn, q, i, n, t in sites:
+        fn._rel, fn._qual = ELEM, q
+        ok = conv or (t == "float64" and ref == "float64")
+        chk.expect(ok, "R-C13-8", "%s store #%d of %s has float elements like every other store (or %s.to_dict converts the elements)" % (q, i, field, cname),
+                   loc(fn, n), "%s stores %s = %s: element type %s, the constructor's is %s, and to_dict emits the elements unconverted (%s): a pattern given as "
+                   "integers through this place serialises as numpy integers, which json.dump rejects (write_json raises TypeError)" % (
+                       q, field, norm(n.value), t, ref, ", ".join(norm(v) for v in tvals)),
+                   expected="float64", found=t)
+    chk.floor("R-C13-8", 3)
+
+
+# --------------------------------------------------------------------------- nested rule conditions
+def rule_condition_grouping(repo, chk):
+    """R-C13-3f: the condition text Rule.to_dict emits must tell Or(And(A,B),C) from And(A,Or(B,C)).  AndCondition.__str__ and
+    OrCondition.__str__ are evaluated (string templates) on both trees with leaf texts A, B, C."""
+    def shape(cls):
+        fn = repo.func(CTRL, cls + ".__str__")
+        ini = repo.func(CTRL, cls + ".__init__")
+        chk.fn(fn)
+        ps = params(ini)
+        kids = []
+        for p_ in ps[:2]:
+            at = [n.targets[0].attr for n in walk(ini) if isinstance(n, ast.Assign) and len(n.targets) == 1 and isinstance(n.targets[0], ast.Attribute)
+                  and dotted(n.targets[0].value) == "self" and isinstance(n.value, ast.Name) and n.value.id == p_]
+            if len(at) != 1:
+                raise ExtractError("%s.__init__: field holding the operand %r not found" % (cls, p_))
+            kids.append("self." + at[0])
+        ts = TemplateExec(fn).templates()
+        if len(ts) != 1:
+            raise ExtractError("%s.__str__ returns %d different templates" % (cls, len(ts)))
+        for sg in ts[0].segs:
+            if isinstance(sg, Hole) and sg.text not in kids:
+                raise ExtractError("%s.__str__ prints %s, which is not one of its operands" % (cls, sg.text))
+        return ts[0], kids
+
+    shapes = {"And": shape("AndCondition"), "Or": shape("OrCondition")}
+
+    def text(tree):
+        if isinstance(tree, str):
+            return tree
+        t, kids = shapes[tree[0]]
+        return "".join(sg if isinstance(sg, str) else text(tree[1 + kids.index(sg.text)]) for sg in t.segs)
+    t1, t2 = ("Or", ("And", "A", "B"), "C"), ("And", "A", ("Or", "B", "C"))
+    s1, s2 = text(t1).split(), text(t2).split()
+    # any other encoding of the tree in the dictionary?
+    ctd = repo.func(CTRL, "Rule.to_dict")
+    chk.fn(ctd)
+    ds = [d_ for d_ in returned_dicts(ctd) if d_.get("type") == "rule"] or returned_dicts(ctd)
+    if not ds:
+        raise ExtractError("Rule.to_dict: returned dictionary not derivable")
+    ex = TemplateExec(ctd)
+    carriers = sorted({k for d_ in ds for k, v in d_.items() if "_condition" in ex.vtext(v)})
+    plain = all(re.sub(r"\s", "", ex.vtext(d_[k])) in ("str(self._condition)", "self._condition.__str__()", "<{self._condition}>", "'%s'%self._condition")
+                for d_ in ds for k in carriers if k in d_)
+    chk.sample({"Or(And(A,B),C)": " ".join(s1), "And(A,Or(B,C))": " ".join(s2), "keys_carrying_the_condition": carriers})
+    ok = s1 != s2 or len(carriers) != 1 or not plain
+    chk.expect(ok, "R-C13-3f", "Rule.to_dict condition text distinguishes Or(And(A,B),C) from And(A,Or(B,C))", loc(ctd),
+               "both trees are written %r (AndCondition.__str__ / OrCondition.__str__ add no grouping) and the dictionary carries the condition only as that "
+               "text (keys %s): the rule reader regroups 'A AND B OR C' as And(A, Or(B, C)), so a rule with a nested Or(And(..),..) condition changes meaning "
+               "in a to_dict / from_dict round trip" % (" ".join(s1), carriers), expected="different texts or a structural encoding", found=" ".join(s2))
+    chk.floor("R-C13-3f", 1)
+
+
 def rule_options(repo, chk):
     """R-C13-4: Options.to_dict = dict(self) yields each options object's __dict__; from_dict feeds it to __init__(**d)."""
     top = repo.cls(OPTS, "Options")
@@ -1808,11 +2471,15 @@ def rule_options(repo, chk):
 
 
 def run(repo, chk):
-    ct, fd = rule_keys(repo, chk)
+    ct, fd, emits = rule_keys(repo, chk)
+    rule_values(repo, chk, ct, fd, emits)
     rule_explicit(repo, chk, fd)
     rule_json_shapes(repo, chk, ct, fd)
     rule_enum_vocab(repo, chk, ct)
     rule_control_text(repo, chk, fd)
+    rule_action_round_trip(repo, chk)
+    rule_condition_grouping(repo, chk)
+    rule_sibling_element_types(repo, chk)
     rule_options(repo, chk)
 
 
@@ -1845,6 +2512,40 @@ WITNESSES = [
     dict(name="time-condition-arm-drops-the-time-token", file=NIO,
          old='cstr = " ".join(["AT", cond[1], cond[3], cond[4] if len(cond) > 4 else ""])', new='cstr = " ".join(["AT", cond[1], cond[4] if len(cond) > 4 else ""])',
          rule="R-C13-3c"),
+    # ---- repaired defects: reverting the repair must fire
+    dict(name="revert-0a269e26-pump-efficiency-stored-as-embedded-dict", file=NIO,
+         old='                efficiency = link.setdefault("efficiency")\n                if isinstance(efficiency, dict):\n'
+             '                    # to_dict embeds the curve: re-bind to the model\'s curve of that name, as the INP reader does\n'
+             '                    efficiency = wn.get_curve(efficiency["name"])\n                p.efficiency = efficiency\n',
+         new='                p.efficiency = link.setdefault("efficiency")\n', rule="R-C13-6"),
+    dict(name="p-pump-efficiency-rebound-by-conditional-expression", file=NIO,
+         old='                efficiency = link.setdefault("efficiency")\n                if isinstance(efficiency, dict):\n'
+             '                    # to_dict embeds the curve: re-bind to the model\'s curve of that name, as the INP reader does\n'
+             '                    efficiency = wn.get_curve(efficiency["name"])\n                p.efficiency = efficiency\n',
+         new='                eff = link.get("efficiency")\n                link["efficiency"] = eff\n'
+             '                p.efficiency = wn.get_curve(eff["name"]) if isinstance(eff, dict) else eff\n', silent=True),
+    dict(name="revert-27144c2c-then-action-target-always-a-link", file=EIO, old="        for act in self._then_clauses:\n            words = act.strip().split()\n            if len(words) < 6:\n                # TODO: raise error\n                pass\n            if words[1].upper() in ('NODE', 'JUNCTION', 'TANK', 'RESERVOIR'):\n                # a leak action targets a node (as in _read_control_line)\n                link = model.get_node(words[2])\n            else:\n                link = model.get_link(words[2])\n",
+         new="        for act in self._then_clauses:\n            words = act.strip().split()\n            if len(words) < 6:\n                # TODO: raise error\n                pass\n            link = model.get_link(words[2])\n", rule="R-C13-3g"),
+    dict(name="revert-27144c2c-else-action-value-not-parsed-as-bool", file=EIO, old="        for act in self._else_clauses:\n            words = act.strip().split()\n            if len(words) < 6:\n                # TODO: raise error\n                pass\n            if words[1].upper() in ('NODE', 'JUNCTION', 'TANK', 'RESERVOIR'):\n                # a leak action targets a node (as in _read_control_line)\n                link = model.get_node(words[2])\n            else:\n                link = model.get_link(words[2])\n            attr = words[3].lower()\n            if attr == 'leak_status':\n                value = words[5].upper() == 'TRUE'\n            else:\n                value = ValueCondition._parse_value(words[5])\n",
+         new="        for act in self._else_clauses:\n            words = act.strip().split()\n            if len(words) < 6:\n                # TODO: raise error\n                pass\n            if words[1].upper() in ('NODE', 'JUNCTION', 'TANK', 'RESERVOIR'):\n                # a leak action targets a node (as in _read_control_line)\n                link = model.get_node(words[2])\n            else:\n                link = model.get_link(words[2])\n            attr = words[3].lower()\n            value = ValueCondition._parse_value(words[5])\n", rule="R-C13-3g"),
+    dict(name="p-then-action-reader-conditional-expressions", file=EIO, old="        for act in self._then_clauses:\n            words = act.strip().split()\n            if len(words) < 6:\n                # TODO: raise error\n                pass\n            if words[1].upper() in ('NODE', 'JUNCTION', 'TANK', 'RESERVOIR'):\n                # a leak action targets a node (as in _read_control_line)\n                link = model.get_node(words[2])\n            else:\n                link = model.get_link(words[2])\n            attr = words[3].lower()\n            if attr == 'leak_status':\n                value = words[5].upper() == 'TRUE'\n            else:\n                value = ValueCondition._parse_value(words[5])\n",
+         new="        for act in self._then_clauses:\n            words = act.strip().split()\n            if len(words) < 6:\n                # TODO: raise error\n                pass\n            is_node = words[1].upper() in {'NODE', 'JUNCTION', 'TANK', 'RESERVOIR'}\n"
+             "            link = model.get_node(words[2]) if is_node else model.get_link(words[2])\n            attr = words[3].lower()\n"
+             "            value = (words[5].upper() == 'TRUE') if attr == 'leak_status' else ValueCondition._parse_value(words[5])\n", silent=True),
+    dict(name="revert-287c3d8b-mixing-fraction-truthiness-guard", file=NIO, old='if node.setdefault("mixing_fraction") is not None:', new='if node.setdefault("mixing_fraction"):',
+         rule="R-C13-7"),
+    dict(name="bulk-coeff-guarded-by-truthiness-through-a-temporary", file=NIO, old='                t.bulk_coeff = node.setdefault("bulk_coeff")\n',
+         new='                kb = node.setdefault("bulk_coeff")\n                if kb:\n                    t.bulk_coeff = kb\n', rule="R-C13-7"),
+    dict(name="p-mixing-fraction-none-test-through-a-temporary", file=NIO,
+         old='                if node.setdefault("mixing_fraction") is not None:\n                    t.mixing_fraction = node.setdefault("mixing_fraction")\n',
+         new='                fraction = node.setdefault("mixing_fraction")\n                if not (fraction is None):\n                    t.mixing_fraction = fraction\n', silent=True),
+    dict(name="revert-3a7a249b-multipliers-setter-without-dtype", file=ELEM, old="            self._multipliers = np.array(values, dtype=np.float64)\n",
+         new="            self._multipliers = np.array(values)\n", rule="R-C13-8"),
+    dict(name="p-multipliers-setter-asarray-float", file=ELEM, old="            self._multipliers = np.array(values, dtype=np.float64)\n",
+         new="            as_floats = np.asarray(values, dtype=float)\n            self._multipliers = as_floats\n", silent=True),
+    dict(name="p-multipliers-setter-unconverted-but-to-dict-converts", file=ELEM, old="            self._multipliers = np.array(values, dtype=np.float64)\n",
+         new="            self._multipliers = np.array(values)\n", also=[("multipliers=list(self._multipliers))", "multipliers=[float(m) for m in self._multipliers])")],
+         silent=True),
     # ---- behaviour-preserving shapes that must stay quiet
     dict(name="p-action-str-fstring", file=CTRL,
          old='        return "{} {} {} IS {}".format(target_obj_type.upper(),\n                                       self._target_obj.name,\n'
